@@ -28,6 +28,7 @@ fn main() {
         "hdr" => hdr::run(&a),
         "codes" => codes::run(&a),
         "name" => name::run(&a),
+        "namesteps" => name::run_steps(&a),
         "nametext" => nametext::run(&a),
         "rdata" => rdata::run(&a),
         "packet" => packet::run(&a),
